@@ -27,7 +27,7 @@ Definition run (c : list sx) : list sx :=
       if list_N_eqb op (lit "range") then [show_outcome (parse_range h size)]
       else if list_N_eqb op (lit "orig") then
         [show_outcome (match split_eq h with
-                       | Some (_, rest) => resolve_orig size (map spec_of_pair (header_pairs rest))
+                       | Some (_, rest) => resolve_orig size (map (spec_of_pair size) (header_pairs rest))
                        | None => Malformed end)]
       else [tag (lit "badcase")]
   | [Str op; Num lo; Num n] =>
